@@ -56,6 +56,24 @@ def literal_probes():
                         f"the returned initial vector holds w = {w0}, the init expression evaluates to [0. 1.]"))
     except Exception as ex:  # noqa
         out.append((dict(model="Var(init=heaviside(x - (0.1 + 0.2)))"), f"raised {type(ex).__name__}: {str(ex)[:100]}"))
+    # the initial vector of a second create_instance() of the same Model, after the parameter of an init expression was re-declared
+    from Solverz import Param
+    try:
+        m = Model()
+        m.q = Param("q", 1.0)
+        m.x = Var("x", init=2 * m.q)
+        m.w = Var("w", init=m.x + m.q)
+        m.e0 = Eqn("e0", m.x - 2 * m.q)
+        m.e1 = Eqn("e1", m.w - m.x - m.q)
+        _, y_first = lang.quiet(m.create_instance)
+        m.q = Param("q", 5.0)
+        _, y_second = lang.quiet(m.create_instance)
+        got = [float(np.asarray(y_second["x"])[0]), float(np.asarray(y_second["w"])[0])]
+        if [float(np.asarray(y_first["x"])[0]), float(np.asarray(y_first["w"])[0])] != [2.0, 3.0] or got != [10.0, 15.0]:
+            out.append((dict(model="x = Var(init=2 q), w = Var(init=x + q); create_instance(), q re-declared as 5, create_instance()"),
+                        f"the second initial vector holds (x, w) = {got}, the init expressions evaluate to [10.0, 15.0]"))
+    except Exception as ex:  # noqa
+        out.append((dict(model="re-instantiation with init expressions"), f"raised {type(ex).__name__}: {str(ex)[:100]}"))
     return out
 
 
